@@ -16,10 +16,12 @@ package log
 //@   ensures result0 == lfile(dir, prevIndex)
 
 //@ func connect
+//@   props C02 C03 C04
 //@   modifies s1.next, s2.prev
 //@   ensures s1.next == s2 && s2.prev == s1
 
 //@ func disconnect
+//@   props C02 C03 C04
 //@   modifies s1.next, s2.prev
 //@   ensures s1.next == nil && s2.prev == nil
 
@@ -36,6 +38,7 @@ package log
 //@   ensures result1 != nil ==> fs[lfile(dir, prevIndex)] == old(fs[lfile(dir, prevIndex)])
 
 //@ func (*Log).Commit
+//@   props C06 C10
 //@   requires LogShape(l) && l.index == nil
 //@   modifies segment.synced, elems(uint8), mmap.File.gdur
 //@   ensures [C14.commit-keeps-shape] LogShape(l) && l.first == old(l.first) && l.last == old(l.last)
@@ -45,6 +48,7 @@ package log
 // Append: the entry becomes the last one, nothing else moves; a full segment is committed before the
 // next one is linked, so at most the last segment is ever dirty.
 //@ func (*Log).Append
+//@   props C02 C03 C04 C06 C10
 //@   requires LogShape(l) && l.index == nil
 //@   requires LogLast(l) < 18446744073709551614 && len(b) <= 1099511627776 && l.opt.SegmentSize >= 1024
 //@   requires forall(x, l.gin[x] ==> arrof(b) != SArr(x))
